@@ -456,6 +456,8 @@ def run_check(ctx, modules, oracles, faults, explanation, extra_trusted=(), part
             if o.get("skipped"):
                 corr.count("real_async_skipped:" + o["skipped"])
             corr.count("real_async:" + str(o.get("status")))
+            if o.get("coincident_cancel"):
+                corr.count("real_async_cancel_coincides_with_completion")
             if o["fail"]:
                 failures.append({"clause": o["fail"][0], "signature": f"{ctx.prop_id}.{o['fail'][0]}", "detail": o["fail"][1],
                                  "replay": {"real_async": o["cfg"]}})
